@@ -150,6 +150,63 @@ def judge_malformed(args):
     except Exception:
         return {'counts': {}, 'viol': [], 'samples': [], 'distinct': [], 'incon': ['regex worker: ' + traceback.format_exc()[-1200:]]}
 
+def dangling_ranges(rnd, n):
+    """patterns with a set whose last item is `<char>-` directly before the closing bracket, most of them followed by text that contains another raw `]`.
+    The documented syntax has no such range; a set ends at its first raw `]`."""
+    out = []; seen = set()
+    fixed = [b'[a-]', b'[a-]]', b'[a-][b]', b'[+-]?[0-9]+', b'x[0-]y', b'[a-]x]', b'[^a-]]', b'[ab-][c]d', b'[0-9a-]b[xy]', b'([a-])]', b'[a-]+[b]']
+    for t in fixed: out.append(t); seen.add(t)
+    guard = 0
+    while len(out) < n and guard < 50 * n:
+        guard += 1
+        pre = bytes(rnd.choice(b'abxy01') for _ in range(rnd.randint(0, 2)))
+        items = bytes(rnd.choice(b'abcxyz019_+') for _ in range(rnd.randint(0, 3)))
+        if rnd.random() < 0.25: items += bytes([rnd.choice(b'ab0')]) + b'-' + bytes([rnd.choice(b'cz9')])
+        st = b'[' + (b'^' if rnd.random() < 0.2 else b'') + items + bytes([rnd.choice(b'abcxyz019_+*.')]) + b'-]'
+        post = rnd.choice([b'', b']', b'[b]', b'x]', b'[xy]z', b'?[0-9]+', b'+[b]', b'b[c]d', b'[^a]', b'y[0-9]', b'\\]', b'[a-c]'])
+        t = pre + st + post
+        if t in seen: continue
+        seen.add(t); out.append(t)
+    return out
+
+def judge_dangling(args):
+    """a range without an end character: the pattern is refused, or (a library that reads the trailing '-' as a literal) the automaton is the one of the
+    reading in which the set ends at its first raw `]`. An accepted pattern with any other language is a matcher with an arbitrary meaning."""
+    try:
+        items, flavour = args
+        exe = harness_exe(flavour)
+        out = {'counts': collections.Counter(), 'viol': [], 'samples': [], 'distinct': [], 'incon': []}
+        C = out['counts']
+        res, meta = build_patterns(exe, items)
+        if not meta['ended']:
+            k = next((i for i, r in enumerate(res) if r is None), None)
+            bad = items[k] if k is not None else None
+            out['viol'].append(([pattern_key(bad)] if bad else ['site:regex-front-end@crash'], 'pattern front end crashed or hung (rc=%s timeout=%s) on %r: %s' % (meta['rc'], meta['timeout'], bad, meta['err'][-300:]), {}))
+        for t, r in zip(items, res):
+            if r is None: continue
+            C['evaluations'] += 1; C['class_range_without_end'] += 1
+            C['pattern_bytes_scanned'] += r['cb'][0]; C['terminator_position_reads'] += r['cb'][4]
+            out['distinct'].append(common.sha(t)[:12])
+            rep = {'pattern': t.decode('latin-1'), 'pattern_hex': t.hex(), 'class': 'range without end'}
+            if r['cb'][1] or r['cb'][2] or r['cb'][3]:
+                out['viol'].append(([pattern_key(t), 'site:regex_lexer@overread'], 'scanning pattern %r read outside the pattern (oob_deref=%d oob_form=%d bad_view=%d)' % (t, r['cb'][1], r['cb'][2], r['cb'][3]), rep))
+            if r['status'] != 'ok' and r['pred'] < 0: C['range_without_end_refused'] += 1; continue
+            if r['status'] != 'ok':
+                out['viol'].append(([pattern_key(t)], 'pattern %r (range without end): size analyzer accepts it (%d states) but the builder answers %s' % (t, r['pred'], r['status']), rep)); continue
+            C['range_without_end_accepted'] += 1
+            try:
+                ast = rr.parse(t)
+            except rr.PatternError as e:
+                out['viol'].append(([pattern_key(t)], 'pattern %r (range without end, and the set-ends-at-first-bracket reading is itself malformed: %s) was accepted' % (t, e), rep)); continue
+            if not rr.Glushkov(ast).deterministic(): C['range_without_end_unjudged_nondeterministic'] += 1; continue
+            w = rr.equivalent(rr.RefDFA(ast), rr.ObsDFA(r['states']))
+            if w is not None:
+                out['viol'].append(([pattern_key(t)], 'pattern %r (range without end) was accepted with an arbitrary meaning: the automaton and the set-ends-at-its-first-bracket reading differ on %r' % (t, w), rep))
+        out['samples'] = [{'pattern': t.decode('latin-1'), 'class': 'range without end'} for t in items[:3]]
+        return out
+    except Exception:
+        return {'counts': {}, 'viol': [], 'samples': [], 'distinct': [], 'incon': ['regex worker: ' + traceback.format_exc()[-1200:]]}
+
 def judge_random_bytes(args):
     """unspecified strings: only memory safety of the scan is judged"""
     try:
